@@ -428,10 +428,9 @@ func (r *runner) exec(e Event) {
 		// either wait for the height (bounded) or drop the channel (they do so on a rescan / shutdown)
 		ch := r.n.Chain.BlockWaiter(uint64(e.Ms))
 		if e.API == "wait" {
-			select {
-			case <-ch:
-			case <-time.After(3 * time.Second):
-			}
+			// the scenario delivers blocks up to this height: the waiter must be woken.  A waiter
+			// that is not is left blocked here, so that the standstill detector reports the call
+			<-ch
 		}
 	case "sleep":
 		time.Sleep(time.Duration(e.Ms) * time.Millisecond)
